@@ -310,35 +310,38 @@ for _m in range(3):
 # ---------------------------------------------------------------------------------------------------------
 
 def observe_K(N, n):
-    """number of brackets the current code takes for (N_max, deg_G) = (N, n): run the py_func with a counting _factorial"""
+    """number of brackets the current code takes for (N_max, deg_G) = (N, n): run the py_func with a counting Poisson bracket.
+    The inputs (G = x1^(n-1) p1; X = x1^2 resp. x1) are chosen so that no iterated bracket vanishes before the degree truncation does it:
+    a series loop that stops early on an identically zero bracket is still counted up to the truncation degree."""
     from numba.typed import List
     import hiten.algorithms.hamiltonian.lie as lie
     import hiten.algorithms.hamiltonian.center._lie as clie
     psi, clmo, enc = tables(N)
     res = []
-    G = {(n, 0, 0, 0, 0, 0): 1.0}
-    X = {(0, 0, 0, 1, 0, 0): 1.0}
-    for mod, fn, args in ((lie, lie._apply_poly_transform, None), (clie, clie._apply_coord_transform, None)):
+    G = {(n - 1, 0, 0, 1, 0, 0): 1.0}
+    for mod, fn, X in ((lie, lie._apply_poly_transform, {(2, 0, 0, 0, 0, 0): 1.0}), (clie, clie._apply_coord_transform, {(1, 0, 0, 0, 0, 0): 1.0})):
         calls = []
-        orig = mod._factorial
-
-        def counting(k, _o=orig, _c=calls):
-            _c.append(int(k))
-            return _o(k)
-
         g = fn.py_func.__globals__
-        old = g["_factorial"]
-        g["_factorial"] = counting
+        name = "_polynomial_poisson_bracket"
+        if name not in g:
+            raise RuntimeError("%s does not call %s" % (fn.py_func.__name__, name))
+        old = g[name]
+
+        def counting(*a, _o=old, _c=calls, **k):
+            _c.append(1)
+            return _o(*a, **k)
+
+        g[name] = counting
         try:
             if fn is lie._apply_poly_transform:
                 fn.py_func(to_blocks(X, N), to_blocks(G, N)[n], n, N, psi, clmo, enc, 1e-30)
             else:
                 fn.py_func(to_blocks(X, N), to_blocks(G, N), N, psi, clmo, enc, 1e-30)
         finally:
-            g["_factorial"] = old
-        if calls != list(range(len(calls))) or not calls:
-            raise RuntimeError("unexpected factorial call pattern %r" % (calls,))
-        res.append(len(calls) - 1)
+            g[name] = old
+        if not calls:
+            raise RuntimeError("no bracket taken")
+        res.append(len(calls))
     return tuple(res)
 
 
@@ -399,7 +402,7 @@ def gen(ctx):
     dft = defaults()
     L = ["/- GENERATED on every run by harness/props/c08.py from the current source — do not edit.",
          "   kTable: (N_max, deg_G, brackets taken by _apply_poly_transform, brackets taken by _apply_coord_transform),",
-         "   observed by executing the current py_funcs with a counting `_factorial`;",
+         "   observed by executing the current py_funcs with a counting Poisson bracket (inputs whose iterated brackets vanish only by truncation);",
          "   guardTol: the threshold t of `abs(denom) < t` in _solve_homological_equation located by bisection on the",
          "   compiled function (exact value of the float); default tolerances from the live signatures. -/",
          "namespace HitenModel.Gen.C08", "",
